@@ -10,6 +10,7 @@ use d_engine_core::client::{
     ClientApi, ClientReadRequest, ClientResponse, ClientResponsePayload, ClientWriteRequest, ErrorCode, WriteOperation,
 };
 use d_engine_core::{ClientCmd, MaybeCloneOneshot, RaftOneshot, ReadConsistencyPolicy};
+use d_engine_proto::client::raft_client_service_server::RaftClientService;
 use d_engine_server::verif as hv;
 use serde::Serialize;
 
@@ -55,6 +56,11 @@ pub struct HistOp {
     pub node_died: bool,
     /// commit index minus applied index on the serving node when the request returned
     pub apply_lag_at_ret: u64,
+    /// never-written key appended to the read's key list so that the state machine read that
+    /// served this operation can be identified (routing scenario, C13); not part of `keys`
+    pub marker: Option<String>,
+    /// value returned for the marker key (must be absent)
+    pub marker_present: bool,
 }
 
 #[derive(Default)]
@@ -64,7 +70,7 @@ pub struct History {
 }
 pub type HistoryRef = Rc<RefCell<History>>;
 
-fn key_name(k: u8) -> String {
+pub fn key_name(k: u8) -> String {
     // a few boundary encodings among ordinary keys
     match k {
         0 => "k0".to_string(),
@@ -77,6 +83,10 @@ fn key_name(k: u8) -> String {
 
 fn classify_status(s: &tonic::Status) -> Outcome {
     use tonic::Code;
+    if s.message().contains("Not leader") {
+        // the gRPC read handler wraps the core's rejection into Status::internal("RPC error: Not leader")
+        return Outcome::Rejected("not_leader".into());
+    }
     match s.code() {
         Code::FailedPrecondition if s.message().contains("Not leader") => Outcome::Rejected("not_leader".into()),
         Code::ResourceExhausted => Outcome::Rejected("backpressure".into()),
@@ -96,11 +106,24 @@ fn classify_response(r: &ClientResponse) -> Option<Outcome> {
     }
 }
 
+/// Error code of a proto `ClientResponse` (gRPC path) as a history outcome; `None` = success.
+fn proto_error_outcome(code: i32) -> Option<Outcome> {
+    use d_engine_proto::error::ErrorCode as P;
+    match P::try_from(code).unwrap_or(P::Uncategorized) {
+        P::Success => None,
+        P::NotLeader => Some(Outcome::Rejected("not_leader".into())),
+        P::RateLimited => Some(Outcome::Rejected("backpressure".into())),
+        P::InvalidRequest => Some(Outcome::Rejected("invalid".into())),
+        e => Some(Outcome::Indeterminate(format!("code:{e:?}"))),
+    }
+}
+
 struct Target {
     node: u32,
     inc: u64,
     cmd_tx: tokio::sync::mpsc::Sender<ClientCmd>,
     embedded: hv::EmbeddedClient<MemT>,
+    grpc: std::sync::Arc<d_engine_server::Node<MemT>>,
     deadline_ms: u64,
 }
 
@@ -131,11 +154,12 @@ fn pick_target(world: &WorldRef, want: u32, believed: &mut Option<u32>) -> Optio
     let timeout = Duration::from_millis(w.plan.knobs.client_timeout_ms);
     let embedded = hv::new_embedded_client::<MemT>(
         cur.event_tx.clone(),
-        cur.sm.clone(),
+        cur.sm_embedded.clone(),
         cur.lease.clone(),
         cur.cmd_tx.clone(),
         1000 + id,
         timeout,
+        cur.cfg.raft.read_consistency.allow_client_override,
         Some(cur.watch_registry.clone()),
     );
     Some(Target {
@@ -143,6 +167,7 @@ fn pick_target(world: &WorldRef, want: u32, believed: &mut Option<u32>) -> Optio
         inc: cur.inc,
         cmd_tx: cur.cmd_tx.clone(),
         embedded,
+        grpc: cur.node.clone(),
         deadline_ms: cur.cfg.raft.general_raft_timeout_duration_in_ms,
     })
 }
@@ -161,9 +186,9 @@ pub async fn run_client(world: WorldRef, hist: HistoryRef, plan: ClientPlan, sto
     let mut believed: Option<u32> = None;
     let mut last_seen: HashMap<String, Option<String>> = HashMap::new();
     let mut counter = 0u64;
-    let (client_timeout, tick_ms) = {
+    let (client_timeout, tick_ms, use_markers) = {
         let w = world.borrow();
-        (w.plan.knobs.client_timeout_ms, w.plan.knobs.heartbeat_ms)
+        (w.plan.knobs.client_timeout_ms, w.plan.knobs.heartbeat_ms, w.plan.scenario == "routing")
     };
     for op in plan.ops.iter() {
         tokio::time::sleep(Duration::from_millis(op.gap_ms)).await;
@@ -198,6 +223,8 @@ pub async fn run_client(world: WorldRef, hist: HistoryRef, plan: ClientPlan, sto
             outcome: Outcome::Indeterminate("unset".into()),
             node_died: false,
             apply_lag_at_ret: 0,
+            marker: None,
+            marker_present: false,
         };
         // server-side deadline (C30): general timeout + one tick + scheduling slack
         let c30_wait = Duration::from_millis(t.deadline_ms + 2 * tick_ms + 250);
@@ -258,6 +285,38 @@ pub async fn run_client(world: WorldRef, hist: HistoryRef, plan: ClientPlan, sto
                         }
                     }
                 };
+            } else if op.path == 2 {
+                // the real tonic service method of Node<T>, called as a Rust method (no sockets)
+                use d_engine_proto::client::WriteCommand;
+                let pcmd = match &op.kind {
+                    OpKind::Put => Some(WriteCommand::insert(kb.clone(), Bytes::from(value.clone()))),
+                    OpKind::PutTtl => Some(WriteCommand::insert_with_ttl(kb.clone(), Bytes::from(value.clone()), 1_000_000)),
+                    OpKind::Delete => Some(WriteCommand::delete(kb.clone())),
+                    OpKind::Cas(_) => Some(WriteCommand::compare_and_swap(
+                        kb.clone(),
+                        rec.expected.clone().flatten().map(Bytes::from),
+                        Bytes::from(value.clone()),
+                    )),
+                    _ => None,
+                };
+                let preq = d_engine_proto::client::ClientWriteRequest { client_id: plan.id, command: pcmd };
+                let fut = RaftClientService::handle_client_write(&*t.grpc, tonic::Request::new(preq));
+                rec.outcome = match tokio::time::timeout(c30_wait.max(Duration::from_millis(client_timeout)), fut).await {
+                    Ok(Ok(resp)) => {
+                        let resp = resp.into_inner();
+                        match proto_error_outcome(resp.error) {
+                            Some(o) => o,
+                            None => match resp.success_result {
+                                Some(d_engine_proto::client::client_response::SuccessResult::WriteResult(wr)) => {
+                                    Outcome::WriteOk(if matches!(op.kind, OpKind::Cas(_)) { Some(wr.succeeded) } else { None })
+                                }
+                                _ => Outcome::Indeterminate("bad_payload".into()),
+                            },
+                        }
+                    }
+                    Ok(Err(status)) => classify_status(&status),
+                    Err(_) => Outcome::Unresolved("unresolved_past_deadline".into()),
+                };
             } else {
                 let req = ClientWriteRequest { client_id: plan.id, command: cmd };
                 let (tx, rx) = MaybeCloneOneshot::new();
@@ -296,6 +355,23 @@ pub async fn run_client(world: WorldRef, hist: HistoryRef, plan: ClientPlan, sto
             if matches!(op.kind, OpKind::Scan) {
                 let prefix = "k1/".to_string();
                 rec.keys = vec![prefix.clone()];
+                if op.path == 2 {
+                    let preq = d_engine_proto::client::ScanRequest { client_id: plan.id, prefix: Bytes::from(prefix.clone()) };
+                    let fut = RaftClientService::handle_client_scan(&*t.grpc, tonic::Request::new(preq));
+                    rec.outcome = match tokio::time::timeout(c30_wait, fut).await {
+                        Ok(Ok(resp)) => {
+                            let sr = resp.into_inner();
+                            Outcome::ScanOk { entries: sr.entries.iter().map(|e| (b2s(&e.key), b2s(&e.value))).collect(), revision: sr.revision }
+                        }
+                        Ok(Err(status)) => classify_status(&status),
+                        Err(_) => Outcome::Unresolved("unresolved_past_deadline".into()),
+                    };
+                    rec.ret_seq = next_event_seq();
+                    rec.ret_ms = crate::seams::vnow_ms();
+                    rec.node_died = !node_alive(&world, t.node, t.inc);
+                    hist.borrow_mut().ops.push(rec);
+                    continue;
+                }
                 let (tx, rx) = MaybeCloneOneshot::new();
                 if t.cmd_tx.send(ClientCmd::Scan(Bytes::from(prefix), tx)).await.is_err() {
                     rec.outcome = Outcome::Rejected("channel_closed".into());
@@ -318,16 +394,57 @@ pub async fn run_client(world: WorldRef, hist: HistoryRef, plan: ClientPlan, sto
                     vec![key.clone()]
                 };
                 rec.keys = keys.clone();
-                let kbs: Vec<Bytes> = keys.iter().map(|k| Bytes::from(k.clone())).collect();
-                if op.path == 1 && policy.is_some() {
+                let mut kbs: Vec<Bytes> = keys.iter().map(|k| Bytes::from(k.clone())).collect();
+                if use_markers {
+                    let m = format!("~op{id}");
+                    kbs.push(Bytes::from(m.clone()));
+                    rec.marker = Some(m);
+                }
+                let n_real = keys.len();
+                let marker_present = std::cell::Cell::new(false);
+                let strip = |mut vals: Vec<Option<String>>| -> Vec<Option<String>> {
+                    if use_markers && vals.len() == n_real + 1 {
+                        marker_present.set(vals.pop().flatten().is_some());
+                    }
+                    vals
+                };
+                if op.path == 2 {
+                    let preq = d_engine_proto::client::ClientReadRequest {
+                        client_id: plan.id,
+                        keys: kbs.clone(),
+                        consistency_policy: rec.policy.map(|p| p as i32),
+                    };
+                    let fut = RaftClientService::handle_client_read(&*t.grpc, tonic::Request::new(preq));
+                    rec.outcome = match tokio::time::timeout(c30_wait, fut).await {
+                        Ok(Ok(resp)) => {
+                            let resp = resp.into_inner();
+                            match proto_error_outcome(resp.error) {
+                                Some(o) => o,
+                                None => match resp.success_result {
+                                    // as the gRPC client library does: the server's list is sparse (present keys
+                                    // only); re-align it with the requested keys
+                                    Some(d_engine_proto::client::client_response::SuccessResult::ReadData(rd)) => {
+                                        let m: HashMap<Bytes, Bytes> = rd.results.into_iter().map(|e| (e.key, e.value)).collect();
+                                        Outcome::ReadOk(strip(kbs.iter().map(|k| m.get(k).map(b2s)).collect()))
+                                    }
+                                    _ => Outcome::Indeterminate("bad_payload".into()),
+                                },
+                            }
+                        }
+                        Ok(Err(status)) => classify_status(&status),
+                        Err(_) => Outcome::Unresolved("unresolved_past_deadline".into()),
+                    };
+                } else if op.path == 1 && policy.is_some() {
                     let r = t.embedded.get_multi_with_consistency(&kbs, policy.clone().unwrap()).await;
                     rec.outcome = match r {
-                        Ok(vals) => Outcome::ReadOk(vals.iter().map(|v| v.as_ref().map(b2s)).collect()),
+                        Ok(vals) => Outcome::ReadOk(strip(vals.iter().map(|v| v.as_ref().map(b2s)).collect())),
                         Err(e) => {
-                            if e.code() == ErrorCode::NotLeader {
+                            if e.code() == ErrorCode::NotLeader || e.message().contains("Not leader") {
+                                // cmd_tx path: the core's Status("Not leader") arrives as a Business
+                                // error whose message is "RPC error: Not leader"
                                 Outcome::Rejected("not_leader".into())
                             } else {
-                                Outcome::Indeterminate(format!("embedded:{:?}", e.code()))
+                                Outcome::Indeterminate(format!("embedded:{:?}:{}", e.code(), e.message()))
                             }
                         }
                     };
@@ -343,7 +460,7 @@ pub async fn run_client(world: WorldRef, hist: HistoryRef, plan: ClientPlan, sto
                                 None => match resp.result {
                                     Some(ClientResponsePayload::Read(rr)) => {
                                         let m: HashMap<Bytes, Bytes> = rr.entries.into_iter().map(|e| (e.key, e.value)).collect();
-                                        Outcome::ReadOk(kbs.iter().map(|k| m.get(k).map(b2s)).collect())
+                                        Outcome::ReadOk(strip(kbs.iter().map(|k| m.get(k).map(b2s)).collect()))
                                     }
                                     _ => Outcome::Indeterminate("bad_payload".into()),
                                 },
@@ -354,6 +471,7 @@ pub async fn run_client(world: WorldRef, hist: HistoryRef, plan: ClientPlan, sto
                         };
                     }
                 }
+                rec.marker_present = marker_present.get();
             }
         }
         rec.ret_seq = next_event_seq();
